@@ -566,19 +566,34 @@ def wall_clock(mode):
     if not mode:
         yield
         return
-    real, real_ns = time.time, time.time_ns
+    import timeit
+    real, real_ns, real_timer = time.time, time.time_ns, timeit.default_timer
     state = [real()]
 
     def fake():
         if mode == 'steps_back':
             state[0] -= 3600.0
+        elif mode == 'leaps':
+            state[0] += 3600.0
         return state[0]
     time.time = fake
     time.time_ns = lambda: int(fake() * 1e9)
+    if mode == 'leaps':
+        # 'leaps': every reading of the wall clock AND of the interval timer
+        # the library measures with (timeit.default_timer) is an hour later
+        # than the last - a server that is slow, a laptop that slept.  The
+        # harness itself uses time.monotonic only.
+        mono = [real_timer()]
+
+        def leap():
+            mono[0] += 3600.0
+            return mono[0]
+        timeit.default_timer = leap
     try:
         yield
     finally:
         time.time, time.time_ns = real, real_ns
+        timeit.default_timer = real_timer
 
 
 @contextlib.contextmanager
